@@ -194,6 +194,37 @@ def hash_length_rule(rep, u):
     return n
 
 
+def reduce_rule(rep, u, fname="bn_mod_reduce"):
+    """the signature equations take e, k, s 'mod n': the reduction helper may skip its work only for an operand that is
+    strictly below the modulus.  For bn_cmp(bn, m) in {0, 1} every path to a return passes the reducing call."""
+    fn = u.fn(fname)
+    if fn is None or not fn.has_cfg:
+        raise driver.AnalysisBroken("anchor %s vanished" % fname)
+    rep.functions.add(fname)
+    red = {pos[0] for pos, root, c, ps in fn.calls({"bn_mod", "bn_div", "bn_sub"})}
+    rets = r_mpt.success_returns(fn)
+    atom = r_mpt.call_atom("bn_cmp", [_p(fn, 0), _p(fn, 1)])
+    desc = "%s leaves its operand unreduced only when it is strictly below the modulus (bn_cmp == -1)" % fname
+    found = False
+    bad = None
+    for bid, cond, a in r_mpt.branches_with(fn, atom):
+        found = True
+        for v in (0, 1):
+            s_, known = r_mpt.edge_for_value(fn, bid, cond, a, v)
+            if not known:
+                bad = bad or "condition at line %s not evaluable" % cond.get("ln")
+            elif r_mpt.can_reach(fn, s_, rets, avoid=list(red) + [bid]):
+                bad = bad or "for bn_cmp == %d (operand %s the modulus) a success return is reached without the reducing call" % (v, "equal to" if v == 0 else "above")
+        s_, known = r_mpt.edge_for_value(fn, bid, cond, a, -1)
+    if not found:
+        rep.violated("R-MPT", fn, "reduce-skip", desc, "no test of bn_cmp(operand, modulus)")
+    elif bad:
+        rep.violated("R-MPT", fn, "reduce-skip", desc, bad)
+    else:
+        rep.proved("R-MPT", fn, "reduce-skip", desc, "edges for 0 and 1 pass the reduction")
+    return 1
+
+
 def run(rep, tier):
     us = driver.load_units(units(tier))
     rep.use_units(us)
@@ -217,6 +248,7 @@ def run(rep, tier):
     rep.floor("switch(curve->algo) sites", n_sw, 3)
     rep.floor("aliased-argument call shapes", alias_rule(rep, us["ecdsa:default"]), 3)
     rep.floor("hash import sites", hash_length_rule(rep, us["ecdsa:default"]), 6)
+    reduce_rule(rep, us["ecdsa:default"])
     from props import c09
     c09.byte_api(rep, us, "C03")
     return driver.finish(
